@@ -1,4 +1,5 @@
 import ChfVerif.Model.LockDiscipline
+import ChfVerif.Lemmas.LockDiscipline
 import ChfVerif.Gen.LockSites
 import ChfVerif.Props.C12
 import ChfVerif.Lemmas.ChargingRecords
@@ -123,16 +124,68 @@ theorem C11 (s : LockSite) (hmem : s ∈ Chf.Gen.lockSites) (rest : List Stmt) (
     (exec (bodyOf s.kind rest) 0 panics {}).held = false ∧ (exec (bodyOf s.kind rest) 0 panics {}).fatal = false :=
   C11_lock_released s (List.all_eq_true.mp sites_ok s hmem) rest hr panics
 
+/-! ### every access to the state a subscriber's requests share is made under the subscriber's mutex -/
+
+/-- regenerated fact (harness/cmd/stateaccess.go, `decide`): the functions that touch subscriber state (session map, records,
+    reservations, rating modes, unit costs, request numbers, notification address, the subscriber's Diameter clients) where they do not
+    hold the subscriber's mutex themselves are reached from the HTTP handlers only through calls made while it is held -/
+theorem state_access_under_lock : stateAccessOK Chf.Gen.fnFacts Chf.Gen.callFacts = true :=
+  Chf.Props.C12.C12_state_access_under_lock
+
+/-- there is something to talk about: create, update, release and recharge take the mutex themselves and touch subscriber state
+    under it; the credit-control loop touches it relying on its callers -/
+theorem state_access_cover :
+    4 ≤ (Chf.Gen.fnFacts.filter fun f => f.ownLock && decide (0 < f.held)).length ∧
+    1 ≤ (needsLock Chf.Gen.fnFacts Chf.Gen.callFacts).length ∧
+    1 ≤ (Chf.Gen.fnFacts.filter FnFact.root).length := by decide
+
+/-- C11 / C09 / C12 (no unsynchronised access): from no HTTP handler is there a chain of calls, none of them made with the
+    subscriber's mutex held, to a function that touches subscriber state without holding the mutex itself.  So a look-up in
+    the session map cannot run next to a create or a release of the same subscriber (no "concurrent map read and map write"
+    crash, no stale record), whatever the requests in flight. -/
+theorem C11_no_unguarded_access (r g : FnFact) (hr : r ∈ Chf.Gen.fnFacts) (hg : g ∈ Chf.Gen.fnFacts)
+    (hroot : r.root = true) (hrel : g.relies = true) : ¬ UnheldPath Chf.Gen.callFacts r.id g.id := by
+  intro hp
+  have hok := state_access_under_lock
+  simp only [stateAccessOK, Bool.and_eq_true] at hok
+  have hgn : g.id ∈ needsLock Chf.Gen.fnFacts Chf.Gen.callFacts := by
+    have : g.id ∈ needs0 Chf.Gen.fnFacts := by
+      simp only [needs0, List.mem_map, List.mem_filter]
+      exact ⟨g, ⟨hg, hrel⟩, rfl⟩
+    have hsub : ∀ x ∈ needs0 Chf.Gen.fnFacts, x ∈ needsLock Chf.Gen.fnFacts Chf.Gen.callFacts := by decide
+    exact hsub _ this
+  have hrn := unheldPath_closed hok.1 hp hgn
+  have := List.all_eq_true.mp hok.2 r hr
+  simp [hroot, hrn] at this
+
+/-- what holding the mutex at every access buys (mutual-exclusion model, every scheduler, any number of threads): if every
+    thread's program locks before it accesses and unlocks only what it holds, then every access ever made is made by the
+    thread that holds the mutex at that moment - two requests never touch the shared state at the same time -/
+theorem C11_mutual_exclusion (prog : Nat → List Ev) (hg : ∀ i, guarded false (prog i) = true) (sched : List Nat) :
+    ∀ e ∈ (Sys.run { prog := prog } sched).log, e.2 = some e.1 := by
+  have hi : Inv { prog := prog } := by intro i; simpa using hg i
+  have hl : LogOK { prog := prog } := by intro e he; simp at he
+  exact (run_inv sched _ hi hl).2
+
+/-- the discipline is needed: a thread that accesses before it locks (the session look-up moved in front of Lock()) makes an
+    access while ANOTHER thread holds the mutex -/
+example : (Sys.run { prog := fun i => if i = 0 then [.lock, .acc, .unlock] else [.acc, .lock, .unlock] } [0, 1]).log
+    = [(1, some 0)] := by decide
+
 /-- C11 (status, modelled inputs): every request of the charging model's input space — any subscriber
-    identifier and consumer name as byte strings, any absent consumer identification, any usage list, any
-    session reference, any recharging path parameter — is answered 2xx or 4xx, never 5xx, and a 4xx answer
-    leaves the whole state (including every lock-protected map) as it was. -/
+    identifier and consumer name as byte strings, any absent consumer identification, any malformed PLMN id or
+    incomplete PDU session information, any usage list, any session reference, any recharging path parameter — is
+    answered 2xx or 4xx, never 5xx, and a 4xx answer leaves accounts, reservations, rating modes, session maps and
+    records (every lock-protected map) as they were. -/
 theorem C11_status_modelled (guard : Chf.Charging.SplitGuard) (s : Chf.Charging.State) (op : Chf.Charging.Op)
     (h : ∀ a b c, op ≠ .credit a b c) :
     (Chf.Charging.step guard s op).2.status ∈ [201, 200, 204, 400, 404] ∧
     ((Chf.Charging.step guard s op).2.status = 400 ∨ (Chf.Charging.step guard s op).2.status = 404 →
-      (Chf.Charging.step guard s op).1 = s) :=
-  ⟨Chf.Props.C12.C12_status_set guard s op h, Chf.Props.C12.C12_reject_no_effect guard s op⟩
+      (Chf.Charging.step guard s op).1.accts = s.accts ∧
+      ∀ supi, Chf.Charging.ueView (Chf.Charging.step guard s op).1 supi = Chf.Charging.ueView s supi) :=
+  ⟨Chf.Props.C12.C12_status_set guard s op h,
+   fun h4 => ⟨(Chf.Props.C12.C12_reject_no_money_no_records guard s op h4).1,
+              (Chf.Props.C12.C12_reject_no_money_no_records guard s op h4).2.2.2⟩⟩
 
 /-- C11 (no session whose CDR file cannot be written): a create for a SUPI that cannot name the file
     /tmp/<supi>.cdr — a path separator, a NUL octet, more than 251 octets — is refused with 400 and changes
